@@ -72,7 +72,7 @@ def run(ctx):
         dom = cfg.dominates(wbb, bb)
         rep.check(d == 1 and dom, 'R-C08-3', key, '%s of a term of degree exactly 1 in the weight: %s' % (op, short(val, 110)),
                   '%s accumulates a term of degree %s in this proof\'s weight%s: %s' % (op, d, '' if dom else ' (not dominated by the draw)', short(val, 200)), ctx.where(v, bb))
-    rep.floor('R-C08-3', 'accumulation sites in the per-proof loop', n, 11)
+    rep.floor('R-C08-3', 'accumulation sites in the per-proof loop', n, 6)
 
     # ---- R-C08-1 provenance
     rng = strip(w[2][0]) if w[2] else None
